@@ -5,7 +5,7 @@ from vlib import readout as ro
 
 ID = 'C18'
 LEVEL = 'exploration'
-RULE = ('(a) ALL type hints (lo, hi) with -9 <= lo <= hi <= 9 plus a sparse '
+RULE = ('(a) ALL type hints (lo, hi) with -9 <= lo <= hi <= 9 (thorough: -17..17) plus a sparse '
         'set up to +-40: representable values found by asking "x = v" for '
         'every v of a window; every hinted value representable; reported '
         'bitfield limits = least/greatest representable; type_hint_for, '
@@ -23,7 +23,8 @@ CASE_TIMEOUT = 60
 
 
 def hints(tier):
-    out = [(lo, hi) for lo in range(-9, 10) for hi in range(lo, 10)]
+    w = 17 if tier == 'thorough' else 9
+    out = [(lo, hi) for lo in range(-w, w + 1) for hi in range(lo, w + 1)]
     sparse = [(0, 10), (0, 15), (0, 16), (0, 31), (0, 32), (0, 40),
               (-10, 10), (-16, 15), (-17, 15), (-16, 16), (-32, 31),
               (-40, 40), (-40, -1), (-33, -32), (-32, -17), (-16, -16),
